@@ -1302,9 +1302,10 @@ class ClientRequest(ClientRequestBase):
         # Now update the body using the existing method
         self._update_body_from_data(body)
 
-        # Update transfer encoding headers if needed (same logic as __init__)
-        if body is not None or self.method not in self.GET_METHODS:
-            self._update_transfer_encoding()
+        # Reconcile the Transfer-Encoding header with the chunked flag
+        # (same logic as __init__): the header was removed above, and a
+        # bodiless GET with chunked=True still chunk-frames what it sends.
+        self._update_transfer_encoding()
 
     async def update_body(self, body: Any) -> None:
         """
